@@ -20,14 +20,19 @@ package discover
 
 import (
 	"bytes"
+	"encoding/json"
 	"errors"
 	"fmt"
 	"math/rand"
 	"net/netip"
+	"os"
+	"runtime/debug"
 	"sort"
+	"strconv"
 	"strings"
 	"sync"
 	"testing"
+	"time"
 
 	"github.com/ethereum/go-ethereum/common/mclock"
 	"github.com/ethereum/go-ethereum/internal/verif/mc"
@@ -45,6 +50,8 @@ var c46Self = func() enode.ID {
 	}
 	return id
 }()
+
+var c46SelfRec = c46Rec(c46Self, "44.0.0.1", 1)
 
 // c46RefDist is log2(a^b)+1 computed bit by bit (0 for equal ids).
 func c46RefDist(a, b enode.ID) int {
@@ -179,14 +186,16 @@ type c46Scenario struct {
 	prefill func(s *c46Sys)
 	targets []enode.ID
 	byID    map[enode.ID]int
+	opIndex map[c46Op]int
+	noInit  bool // leave tab.initDone open (initial refresh not finished)
 }
 
-var c46KindName = map[byte]string{'f': "found", 'F': "found'", 'i': "inbound", 'I': "inbound'", 'd': "del", 'D': "del/rlast",
+var c46KindName = map[byte]string{'L': "found-live", 'f': "found", 'F': "found'", 'i': "inbound", 'I': "inbound'", 'd': "del", 'D': "del/rlast",
 	'p': "ping", 'o': "pong", 'O': "pong'", 't': "timeout", 'P': "reval-ok", 'T': "reval-fail", 'Q': "reval-ok'",
 	'x': "ffail", 's': "fok"}
 
 func c46NewScenario(name string, nodes []*c46Node) *c46Scenario {
-	sc := &c46Scenario{name: name, nodes: nodes, byID: map[enode.ID]int{}}
+	sc := &c46Scenario{name: name, nodes: nodes, byID: map[enode.ID]int{}, opIndex: map[c46Op]int{}}
 	for i, n := range nodes {
 		if _, dup := sc.byID[n.id]; dup && n.id != c46Self {
 			panic("c46: duplicate node id " + n.name)
@@ -194,13 +203,14 @@ func c46NewScenario(name string, nodes []*c46Node) *c46Scenario {
 		sc.byID[n.id] = i
 	}
 	// simplest first: all adds, then deletes, then the rest
-	for _, group := range []string{"fFiI", "dD", "PTQ", "potO", "xs"} {
+	for _, group := range []string{"fLFiI", "dD", "PTQ", "potO", "xs"} {
 		for i, n := range nodes {
 			for _, k := range []byte(n.kinds) {
 				if strings.IndexByte(group, k) >= 0 {
 					if (k == 'F' || k == 'I' || k == 'O' || k == 'Q') && n.recs[1] == nil {
 						panic("c46: node without alternate record: " + n.name)
 					}
+					sc.opIndex[c46Op{k, i}] = len(sc.ops)
 					sc.ops = append(sc.ops, c46Op{k, i})
 					sc.names = append(sc.names, c46KindName[k]+"-"+n.name)
 				}
@@ -211,7 +221,7 @@ func c46NewScenario(name string, nodes []*c46Node) *c46Scenario {
 	for i := range inv {
 		inv[i] = ^c46Self[i]
 	}
-	sc.targets = []enode.ID{c46Self, inv, nodes[0].id, nodes[len(nodes)-1].id, c46IDAt(255, 0xdead), c46IDAt(3, 1)}
+	sc.targets = []enode.ID{c46Self, inv, nodes[0].id, c46IDAt(255, 0xdead)}
 	return sc
 }
 
@@ -269,29 +279,33 @@ type c46Sys struct {
 	pick  int
 	pend  map[enode.ID]*c46Pending
 	final bool
+	dirty bool     // the node database was written to
+	last  *c46Snap // snapshot taken after the last checked operation (reused by Key)
 }
 
 func c46NewSys(r *mc.R, sc *c46Scenario) *c46Sys {
 	s := &c46Sys{r: r, sc: sc, pend: map[enode.ID]*c46Pending{}}
-	s.tr = &c46Transport{self: c46Rec(c46Self, "44.0.0.1", 1), rel: map[enode.ID]chan c46PingRes{}, enr: map[enode.ID]*enode.Node{}}
+	s.tr = &c46Transport{self: c46SelfRec, rel: map[enode.ID]chan c46PingRes{}, enr: map[enode.ID]*enode.Node{}}
 	for _, n := range sc.nodes {
 		if n.recs[1] != nil {
 			s.tr.enr[n.id] = n.recs[1]
 		}
 	}
-	db, err := enode.OpenDB("")
-	if err != nil {
-		panic(err)
-	}
+	db := c46GetDB()
 	s.db = db
 	tab, err := newTable(s.tr, db, Config{Clock: new(mclock.Simulated)})
 	if err != nil {
 		panic(err)
 	}
+	if tab.len() != 0 {
+		panic("c46: harness error: pooled node database was not clean")
+	}
 	tab.rand.mu.Lock()
 	tab.rand.cur = rand.New(c46Src{&s.pick})
 	tab.rand.mu.Unlock()
-	close(tab.initDone) // inbound contacts are refused until the initial refresh is done (checked separately)
+	if !sc.noInit {
+		close(tab.initDone) // inbound contacts are refused until the initial refresh is done (checked separately)
+	}
 	s.tab = tab
 	if sc.prefill != nil {
 		sc.prefill(s)
@@ -309,7 +323,52 @@ func (s *c46Sys) close() {
 		}
 	}
 	s.tr.mu.Unlock()
-	s.db.Close()
+	if s.dirty {
+		for _, n := range s.sc.nodes {
+			s.db.DeleteNode(n.id)
+		}
+	}
+	c46PutDB(s.db)
+}
+
+// Opening and closing an in-memory node database costs ~10 ms (leveldb goroutines), far more than a
+// whole operation sequence, so databases are recycled. A system that wrote to its database (findnode
+// failure counters, records of long-lived nodes) wipes those keys before handing it back, and every new
+// system asserts that newTable loaded no seed node from it.
+var c46DBs struct {
+	mu   sync.Mutex
+	free []*enode.DB
+}
+
+func c46GetDB() *enode.DB {
+	c46DBs.mu.Lock()
+	if n := len(c46DBs.free); n > 0 {
+		db := c46DBs.free[n-1]
+		c46DBs.free = c46DBs.free[:n-1]
+		c46DBs.mu.Unlock()
+		return db
+	}
+	c46DBs.mu.Unlock()
+	db, err := enode.OpenDB("")
+	if err != nil {
+		panic(err)
+	}
+	return db
+}
+
+func c46PutDB(db *enode.DB) {
+	c46DBs.mu.Lock()
+	c46DBs.free = append(c46DBs.free, db)
+	c46DBs.mu.Unlock()
+}
+
+func c46DrainDBs() {
+	c46DBs.mu.Lock()
+	defer c46DBs.mu.Unlock()
+	for _, db := range c46DBs.free {
+		db.Close()
+	}
+	c46DBs.free = nil
 }
 
 // ---------------------------------------------------------------------------
@@ -367,9 +426,13 @@ func (s *c46Sys) snap() *c46Snap {
 		sb.entries = conv(b.entries)
 		sb.repl = conv(b.replacements)
 		sb.index = b.index
-		sb.ips = c46ParseSet(b.ips.String(), b.ips.Len())
+		if l := b.ips.Len(); l > 0 {
+			sb.ips = c46ParseSet(b.ips.String(), l)
+		}
 	}
-	sn.ips = c46ParseSet(tab.ips.String(), tab.ips.Len())
+	if l := tab.ips.Len(); l > 0 {
+		sn.ips = c46ParseSet(tab.ips.String(), l)
+	}
 	sn.fast = append(sn.fast, tab.revalidation.fast.nodes...)
 	sn.slow = append(sn.slow, tab.revalidation.slow.nodes...)
 	for id := range tab.revalidation.activeReq {
@@ -390,11 +453,11 @@ func c46ParseSet(str string, total int) map[netip.Prefix]uint {
 		if len(parts) != 2 {
 			panic("c46: cannot parse DistinctNetSet string " + str)
 		}
-		var n uint
-		if _, err := fmt.Sscanf(parts[1], "%d", &n); err != nil {
+		n, err := strconv.ParseUint(parts[1], 10, 32)
+		if err != nil {
 			panic("c46: cannot parse DistinctNetSet string " + str)
 		}
-		out[netip.MustParsePrefix(parts[0])] = n
+		out[netip.MustParsePrefix(parts[0])] = uint(n)
 		sum += int(n)
 	}
 	if sum != total {
@@ -487,7 +550,11 @@ func c46FmtIPs(m map[netip.Prefix]uint) string {
 // revalidation list of every entry, replacement lists, all IP counters, outstanding requests
 // (and whether they refer to a table entry that still exists), and the findnode failure counters.
 func (s *c46Sys) Key() string {
-	sn := s.snap()
+	sn := s.last
+	s.last = nil
+	if sn == nil {
+		sn = s.snap()
+	}
 	var sb strings.Builder
 	sb.WriteString(s.fmtSnap(sn))
 	var ps []string
@@ -653,10 +720,19 @@ func (s *c46Sys) checkFind(sn *c46Snap, targets []enode.ID, counts []int) error 
 			if preferLive && len(live) > 0 {
 				src = live
 			}
-			want := append([]c46Ent{}, src...)
-			sort.SliceStable(want, func(i, j int) bool {
-				return bytes.Compare(c46Xor(target, want[i].id), c46Xor(target, want[j].id)) < 0
-			})
+			type distEnt struct {
+				d []byte
+				e c46Ent
+			}
+			ds := make([]distEnt, len(src))
+			for i, e := range src {
+				ds[i] = distEnt{c46Xor(target, e.id), e}
+			}
+			sort.SliceStable(ds, func(i, j int) bool { return bytes.Compare(ds[i].d, ds[j].d) < 0 })
+			want := make([]c46Ent, len(ds))
+			for i := range ds {
+				want[i] = ds[i].e
+			}
 			for _, n := range counts {
 				got := s.tab.findnodeByID(target, n, preferLive)
 				w := want
@@ -734,8 +810,7 @@ func (s *c46Sys) startPing(n *c46Node) {
 
 func (s *c46Sys) deliver(n *c46Node, res c46PingRes) {
 	s.tr.mu.Lock()
-	ch := s.tr.rel[n.id]
-	delete(s.tr.rel, n.id)
+	ch := s.tr.rel[n.id] // stays in the map: the request goroutine may not have fetched it yet
 	s.tr.mu.Unlock()
 	ch <- res
 	resp := <-s.tab.revalResponseCh
@@ -761,9 +836,14 @@ func (s *c46Sys) Apply(op int) error {
 		}
 	}
 	var ret bool
+	if strings.IndexByte("fLFiIdDp", o.kind) < 0 {
+		s.dirty = true
+	}
 	switch o.kind {
 	case 'f':
 		ret = s.add(n.recs[0], false, false)
+	case 'L':
+		ret = s.add(n.recs[0], false, true)
 	case 'F':
 		ret = s.add(n.recs[1], false, false)
 	case 'i':
@@ -803,17 +883,19 @@ func (s *c46Sys) Apply(op int) error {
 	default:
 		panic("c46: unknown op kind")
 	}
+	s.last = nil
 	if !final {
 		return nil
 	}
 	after := s.snap()
+	s.last = after
 	if err := s.invariants(after); err != nil {
 		return fmt.Errorf("%v\n  before: %s\n  after:  %s", err, s.fmtSnap(before), s.fmtSnap(after))
 	}
 	if err := s.post(o, n, before, after, ret, stale, pendRec); err != nil {
 		return fmt.Errorf("%v\n  before: %s\n  after:  %s", err, s.fmtSnap(before), s.fmtSnap(after))
 	}
-	counts := []int{1, 2, bucketSize, len(after.all()) + 1}
+	counts := []int{1, bucketSize, len(after.all()) + 1}
 	if err := s.checkFind(after, s.sc.targets, counts); err != nil {
 		return fmt.Errorf("%v\n  table: %s", err, s.fmtSnap(after))
 	}
@@ -868,12 +950,19 @@ func (s *c46Sys) post(o c46Op, n *c46Node, before, after *c46Snap, ret, stale bo
 		return c46SameIDs(bb.entries, ab.entries) && c46SameIDs(bb.repl, ab.repl)
 	}
 	switch o.kind {
-	case 'f', 'F', 'i', 'I':
+	case 'f', 'L', 'F', 'i', 'I':
 		rec := n.recs[0]
 		if o.kind == 'F' || o.kind == 'I' {
 			rec = n.recs[1]
 		}
 		inbound := o.kind == 'i' || o.kind == 'I'
+		if inbound && !s.tab.isInitDone() {
+			if ret || s.fmtSnap(before) != s.fmtSnap(after) {
+				return fmt.Errorf("inbound contact %s before the initial refresh finished: returned %v / table changed", n.name, ret)
+			}
+			s.r.Outcome("add:inbound-refused-before-init")
+			return nil
+		}
 		if n.id == c46Self {
 			if ret || !unchanged() {
 				return fmt.Errorf("adding the local node: returned %v / table changed", ret)
@@ -1113,7 +1202,60 @@ func (s *c46Sys) postRemoval(n *c46Node, bb, ab *c46Bucket, tag string) error {
 	return nil
 }
 
+// c46Replay re-executes one operation sequence from a replay file with every step checked. r.Explore has its
+// own replay mode, but it reports the violation under a differently formatted key than the exploration did
+// ("name:[a b]" instead of "name:a;b"), so run.py's confirmation would never match; this keeps the key stable.
+func c46Replay(r *mc.R, sc *c46Scenario) {
+	raw, err := os.ReadFile(os.Getenv("VERIF_REPLAY"))
+	if err != nil {
+		return
+	}
+	var f struct {
+		Replay struct {
+			Explore string   `json:"explore"`
+			Ops     []string `json:"ops"`
+		} `json:"replay"`
+	}
+	if json.Unmarshal(raw, &f) != nil || f.Replay.Explore != sc.name {
+		return
+	}
+	desc := map[string]any{"explore": sc.name, "ops": f.Replay.Ops}
+	r.Case(desc, func() error { return nil }) // registers the replay hit
+	s := c46NewSys(r, sc)
+	defer s.close()
+	err = mc.Safely(func() error {
+		for _, name := range f.Replay.Ops {
+			op := -1
+			for i, n := range sc.names {
+				if n == name {
+					op = i
+				}
+			}
+			if op < 0 {
+				return fmt.Errorf("replay: unknown op %q", name)
+			}
+			if !s.Enabled(op) {
+				return fmt.Errorf("replay: op %q not enabled", name)
+			}
+			if e := s.Apply(op); e != nil {
+				return fmt.Errorf("at op %s: %v", name, e)
+			}
+		}
+		return nil
+	})
+	if err != nil {
+		r.Violation(sc.name+":"+strings.Join(f.Replay.Ops, ";"), err.Error(), desc)
+	}
+}
+
 func c46Explore(r *mc.R, sc *c46Scenario, depth int) {
+	if r.Replaying() {
+		c46Replay(r, sc)
+		return
+	}
+	defer func(t0 time.Time) {
+		r.T.Logf("c46: scenario %s depth %d alphabet %d: %.1fs", sc.name, depth, len(sc.names), time.Since(t0).Seconds())
+	}(time.Now())
 	r.Explore(mc.Config{
 		Name:  sc.name,
 		Ops:   sc.names,
@@ -1131,6 +1273,8 @@ func TestVerif_C46_scaled(t *testing.T) {
 		t.Fatalf("C46 scaled step must run with shrunk constants (instrument.consts); got bucketSize=%d maxReplacements=%d tableIPLimit=%d maxFindnodeFailures=%d",
 			bucketSize, maxReplacements, tableIPLimit, maxFindnodeFailures)
 	}
+	defer c46DrainDBs()
+	defer debug.SetGCPercent(debug.SetGCPercent(400)) // many short-lived tables; the live heap is tiny
 	mc.Run(t, "C46", func(r *mc.R) {
 		r.Rule("BFS (r.Explore, de-duplicated by canonical table state) over all sequences of table operations up to the depth bound, on the real " +
 			"discover.Table with scaled constants; a state = bucket entries/replacements in order with record version, liveness counters, revalidation list, " +
@@ -1153,26 +1297,375 @@ func TestVerif_C46_scaled(t *testing.T) {
 		ip := c46NewScenario("ip", []*c46Node{
 			c46N("a1", 256, 1, S1+"1", "", "fdDT"),
 			c46N("a2", 256, 2, S1+"2", "", "fdT"),
-			c46N("a3", 256, 3, S1+"3", "", "fd"),
+			c46N("a3", 256, 3, S1+"3", "", "f"),
 			c46N("a4", 256, 4, S2+"1", "", "fdD"),
-			c46N("a5", 256, 5, "10.0.0.5", "", "fd"),
+			c46N("a5", 256, 5, "10.0.0.5", "", "f"),
 			c46N("a6", 256, 6, S2+"2", "", "f"),
-			c46N("b1", 255, 1, S1+"4", "", "fdT"),
-			c46N("b2", 255, 2, S1+"5", "", "fd"),
+			c46N("b1", 255, 1, S1+"4", "", "fd"),
+			c46N("b2", 255, 2, S1+"5", "", "f"),
 			c46N("c1", 240, 1, S1+"6", "", "fd"),
 			c46N("c2", 9, 2, S2+"3", "", "f"),
 			c46N("noip", 256, 7, "", "", "f"),
-			{name: "self", id: c46Self, recs: [2]*enode.Node{c46Rec(c46Self, S2+"9", 1), nil}, kinds: "fi"},
+			{name: "self", id: c46Self, recs: [2]*enode.Node{c46Rec(c46Self, S2+"9", 1), nil}, kinds: "f"},
 		})
 		// scenario "reval": few nodes, every handler incl. endpoint updates (same id, new IP in the other /24),
 		// late answers for removed entries, findnode failure counters
 		reval := c46NewScenario("reval", []*c46Node{
-			c46N("a1", 256, 1, S1+"1", S2+"1", "fFiIdpoOtx"),
-			c46N("a2", 256, 2, S1+"2", S1+"7", "fIdPTQxs"),
-			c46N("a3", 256, 3, S2+"3", S1+"3", "fFdPT"),
-			c46N("b1", 255, 1, S1+"4", S2+"4", "fiIdQ"),
+			c46N("a1", 256, 1, S1+"1", S2+"1", "fFIdpoOtx"),
+			c46N("a2", 256, 2, S1+"2", S1+"7", "fdTQxs"),
+			c46N("a3", 256, 3, S2+"3", S1+"3", "fFdT"),
+			c46N("b1", 255, 1, S1+"4", S2+"4", "fiIQ"),
 		})
 		c46Explore(r, ip, mc.Pick(r, 5, 7))
 		c46Explore(r, reval, mc.Pick(r, 5, 6))
+	})
+}
+
+// ---------------------------------------------------------------------------
+// step 2: the constants of the tree as they are
+
+// step runs one checked operation (kind on node index) outside r.Explore.
+func (s *c46Sys) step(kind byte, node int) error {
+	idx, ok := s.sc.opIndex[c46Op{kind, node}]
+	if !ok {
+		panic(fmt.Sprintf("c46: scenario %s has no op %c on node %d", s.sc.name, kind, node))
+	}
+	if !s.Enabled(idx) {
+		s.final = false
+		return nil
+	}
+	if err := s.Apply(idx); err != nil {
+		return fmt.Errorf("at %s: %v", s.sc.names[idx], err)
+	}
+	return nil
+}
+
+func (s *c46Sys) bucketCounts(d int) (entries, repl int) {
+	sn := s.snap()
+	b := &sn.b[c46RefBucket(d)]
+	return len(b.entries), len(b.repl)
+}
+
+// c46Boundary builds the pre-filled boundary scenario for the unscaled BFS: bucket A (distance 256) holds
+// bucketSize entries (bucketIPLimit-1 of them in subnet S) and maxReplacements-1 replacements, and subnet S
+// has tableIPLimit-1 nodes in the table, spread over the next buckets with bucketIPLimit each.
+func c46Boundary() *c46Scenario {
+	const S = "23.1.1."
+	var nodes []*c46Node
+	var pre []int
+	host := 1
+	addPre := func(n *c46Node) int {
+		nodes = append(nodes, n)
+		pre = append(pre, len(nodes)-1)
+		return len(nodes) - 1
+	}
+	sCount := 0
+	for i := 0; i < bucketSize; i++ {
+		kinds := ""
+		switch i {
+		case 0:
+			kinds = "dD"
+		case 1:
+			kinds = "TP"
+		}
+		if i >= 2 && i < 2+bucketIPLimit-1 {
+			n := c46N(fmt.Sprintf("eS%d", i), 256, uint32(100+i), fmt.Sprintf("%s%d", S, host), "", "d")
+			host++
+			sCount++
+			addPre(n)
+			continue
+		}
+		addPre(c46N(fmt.Sprintf("e%d", i), 256, uint32(100+i), fmt.Sprintf("31.0.%d.1", i), "", kinds))
+	}
+	for i := 0; i < maxReplacements-1; i++ {
+		addPre(c46N(fmt.Sprintf("r%d", i), 256, uint32(200+i), fmt.Sprintf("32.0.%d.1", i), "", ""))
+	}
+	for d := 255; sCount < tableIPLimit-1 && d > 241; d-- {
+		for j := 0; j < bucketIPLimit && sCount < tableIPLimit-1; j++ {
+			kinds := ""
+			if d == 255 && j == 0 {
+				kinds = "d"
+			}
+			addPre(c46N(fmt.Sprintf("s%d.%d", d, j), d, uint32(j+1), fmt.Sprintf("%s%d", S, host), "", kinds))
+			host++
+			sCount++
+		}
+	}
+	if sCount != tableIPLimit-1 {
+		panic("c46: cannot place tableIPLimit-1 nodes of one subnet")
+	}
+	// nodes that are not in the table initially
+	nodes = append(nodes,
+		c46N("new1", 256, 300, "33.0.1.1", "", "f"),
+		c46N("new2", 256, 301, "33.0.2.1", "", "f"),
+		c46N("sA1", 256, 302, fmt.Sprintf("%s%d", S, host), "", "f"),
+		c46N("sA2", 256, 303, fmt.Sprintf("%s%d", S, host+1), "", "f"),
+		c46N("sF", 241, 1, fmt.Sprintf("%s%d", S, host+2), "", "f"),
+		c46N("sG", 200, 1, fmt.Sprintf("%s%d", S, host+3), "", "f"),
+		c46N("lan", 241, 2, "192.168.7.7", "", "f"),
+	)
+	sc := c46NewScenario("boundary", nodes)
+	sc.prefill = func(s *c46Sys) {
+		for _, i := range pre {
+			s.add(nodes[i].recs[0], false, false)
+		}
+		e, r := s.bucketCounts(256)
+		if e != bucketSize || r != maxReplacements-1 {
+			panic(fmt.Sprintf("c46: boundary prefill gave %d entries, %d replacements", e, r))
+		}
+	}
+	return sc
+}
+
+func TestVerif_C46_full(t *testing.T) {
+	defer c46DrainDBs()
+	defer debug.SetGCPercent(debug.SetGCPercent(400))
+	mc.Run(t, "C46", func(r *mc.R) {
+		r.Rule("constants of the tree unscaled. (a) BFS (r.Explore) from a pre-filled boundary state: one bucket at bucketSize entries and maxReplacements-1 replacements, " +
+			"one /24 at tableIPLimit-1 nodes spread over buckets; (b) grids via r.Case: fill of one bucket with 0..bucketSize+maxReplacements+2 nodes at 6 distances then removal of " +
+			"every entry; one /24 offered tableIPLimit+2 times with 1/bucketIPLimit/bucketIPLimit+1 nodes per bucket into empty or full buckets; closest-node queries on tables with " +
+			"1/3/bucketSize nodes in every bucket; inbound contacts before the initial refresh. Every step of every case is checked; distinct = distinct table states")
+		r.Bound("bucketSize", bucketSize)
+		r.Bound("maxReplacements", maxReplacements)
+		r.Bound("bucketIPLimit", bucketIPLimit)
+		r.Bound("tableIPLimit", tableIPLimit)
+		r.Bound("nBuckets", nBuckets)
+		r.Assume("same driver, reference helpers and postconditions as the scaled step")
+
+		// (a) boundary-state BFS
+		c46Explore(r, c46Boundary(), mc.Pick(r, 3, 5))
+
+		// (b1) fill / drain one bucket
+		total := bucketSize + maxReplacements + 2
+		for _, d := range []int{256, 255, 241, 240, 200, 6} {
+			var nodes []*c46Node
+			for i := 0; i < total; i++ {
+				nodes = append(nodes, c46N(fmt.Sprintf("g%d", i), d, uint32(i+1), fmt.Sprintf("50.%d.%d.1", d%200, i), "", "fdD"))
+			}
+			sc := c46NewScenario(fmt.Sprintf("fill-d%d", d), nodes)
+			for _, n := range []int{1, bucketSize - 1, bucketSize, bucketSize + 1, bucketSize + maxReplacements, total} {
+				if r.Expired() {
+					return
+				}
+				c := map[string]any{"grid": "fill", "dist": d, "nodes": n}
+				if n == bucketSize+1 {
+					r.Sample(c)
+				}
+				r.Case(c, func() error {
+					s := c46NewSys(r, sc)
+					defer s.close()
+					for i := 0; i < n; i++ {
+						if err := s.step('f', i); err != nil {
+							return err
+						}
+						e, rp := s.bucketCounts(d)
+						we, wr := min(i+1, bucketSize), min(max(i+1-bucketSize, 0), maxReplacements)
+						if e != we || rp != wr {
+							return fmt.Errorf("after %d nodes of distinct subnets at distance %d: %d entries, %d replacements; capacity rule gives %d, %d", i+1, d, e, rp, we, wr)
+						}
+						r.DistinctHash(mc.Hash64(s.Key()))
+					}
+					// remove every node in insertion order, replacement choice alternating first/last
+					for i := 0; i < n; i++ {
+						kind := byte('d')
+						if i%2 == 1 {
+							kind = 'D'
+						}
+						if err := s.step(kind, i); err != nil {
+							return err
+						}
+						if err := s.step('d', i); err != nil { // when 'D' was not enabled (fewer than 2 replacements)
+							return err
+						}
+						r.DistinctHash(mc.Hash64(s.Key()))
+					}
+					if e, rp := s.bucketCounts(d); e != 0 || rp != 0 {
+						return fmt.Errorf("bucket not empty after removing every node: %d entries, %d replacements", e, rp)
+					}
+					return nil
+				})
+			}
+		}
+
+		// (b2) IP limits at their real values
+		const S = "23.9.9."
+		for _, perBucket := range []int{1, bucketIPLimit, bucketIPLimit + 1} {
+			for _, full := range []bool{false, true} {
+				if r.Expired() {
+					return
+				}
+				var nodes []*c46Node
+				offers := tableIPLimit + 2
+				nb := (offers + perBucket - 1) / perBucket
+				if nb > nBuckets-1 {
+					nb = nBuckets - 1
+				}
+				type fillRef struct{ first, n int }
+				var fillers []fillRef
+				if full {
+					for b := 0; b < nb; b++ {
+						fillers = append(fillers, fillRef{len(nodes), bucketSize})
+						for i := 0; i < bucketSize; i++ {
+							nodes = append(nodes, c46N(fmt.Sprintf("x%d.%d", b, i), 256-b, uint32(1000+i), fmt.Sprintf("60.%d.%d.1", b, i), "", "fd"))
+						}
+					}
+				}
+				firstS := len(nodes)
+				var sBucket []int
+				for k := 0; k < offers && k/perBucket < nb; k++ {
+					b := k / perBucket
+					nodes = append(nodes, c46N(fmt.Sprintf("s%d", k), 256-b, uint32(k+1), fmt.Sprintf("%s%d", S, k+1), "", "fd"))
+					sBucket = append(sBucket, b)
+				}
+				extra := len(nodes)
+				nodes = append(nodes, c46N("late", 256-(nb), 1, S+"200", "", "f"))
+				sc := c46NewScenario(fmt.Sprintf("iplimit-%d-%v", perBucket, full), nodes)
+				c := map[string]any{"grid": "iplimit", "per_bucket": perBucket, "buckets_full": full}
+				r.Sample(c)
+				r.Case(c, func() error {
+					s := c46NewSys(r, sc)
+					defer s.close()
+					for _, f := range fillers {
+						for i := 0; i < f.n; i++ {
+							if err := s.step('f', f.first+i); err != nil {
+								return err
+							}
+						}
+					}
+					// reference: the k-th offer is taken iff its bucket has < bucketIPLimit and the table < tableIPLimit of S
+					inBucket := map[int]int{}
+					inTable := 0
+					var taken []int
+					for k, b := range sBucket {
+						if err := s.step('f', firstS+k); err != nil {
+							return err
+						}
+						want := inBucket[b] < bucketIPLimit && inTable < tableIPLimit
+						if want {
+							inBucket[b]++
+							inTable++
+							taken = append(taken, firstS+k)
+						}
+						sn := s.snap()
+						bk := &sn.b[c46RefBucket(256-b)]
+						got := c46Find(bk.entries, nodes[firstS+k].id) >= 0 || c46Find(bk.repl, nodes[firstS+k].id) >= 0
+						if got != want {
+							return fmt.Errorf("offer %d of subnet %s0/24 into bucket %d (has %d of it, table has %d): in table = %v, the limits say %v", k, S, b, inBucket[b], inTable, got, want)
+						}
+						r.DistinctHash(mc.Hash64(s.Key()))
+					}
+					if inTable != tableIPLimit && perBucket <= bucketIPLimit {
+						return fmt.Errorf("harness: grid did not reach the table limit (%d)", inTable)
+					}
+					// at the table limit a further node of S in a fresh bucket is refused; after one S node is removed it fits
+					if inTable == tableIPLimit {
+						if err := s.step('f', extra); err != nil {
+							return err
+						}
+						if e, rp := s.bucketCounts(256 - nb); e+rp != 0 {
+							return fmt.Errorf("node of %s0/24 admitted beyond tableIPLimit", S)
+						}
+						if !full {
+							if err := s.step('d', taken[0]); err != nil {
+								return err
+							}
+							if err := s.step('f', extra); err != nil {
+								return err
+							}
+							if e, _ := s.bucketCounts(256 - nb); e != 1 {
+								return fmt.Errorf("after removing one node of %s0/24 a new one still does not fit", S)
+							}
+						}
+					}
+					return nil
+				})
+			}
+		}
+
+		// (b3) closest-node queries on populated tables
+		for _, per := range []int{1, 3, bucketSize} {
+			if r.Expired() {
+				return
+			}
+			var nodes []*c46Node
+			for b := 0; b < nBuckets; b++ {
+				d := 256 - b
+				for j := 0; j < per; j++ {
+					kinds := "f"
+					if (b+j)%3 == 0 {
+						kinds = "L"
+					}
+					nodes = append(nodes, c46N(fmt.Sprintf("n%d.%d", d, j), d, uint32(7*j+1), fmt.Sprintf("70.%d.%d.1", b, j), "", kinds))
+				}
+			}
+			// two more nodes deep inside bucket 0
+			nodes = append(nodes, c46N("deep1", 100, 5, "71.0.0.1", "", "f"), c46N("deep2", 3, 1, "71.0.1.1", "", "L"))
+			sc := c46NewScenario(fmt.Sprintf("closest-%d", per), nodes)
+			for _, live := range []bool{true, false} {
+				c := map[string]any{"grid": "closest", "per_bucket": per, "some_live": live}
+				r.Sample(c)
+				r.Case(c, func() error {
+					s := c46NewSys(r, sc)
+					defer s.close()
+					for i, n := range nodes {
+						kind := n.kinds[0]
+						if !live {
+							kind = 'f'
+						}
+						if _, ok := sc.opIndex[c46Op{kind, i}]; !ok {
+							sc.opIndex[c46Op{kind, i}] = len(sc.ops)
+							sc.ops = append(sc.ops, c46Op{kind, i})
+							sc.names = append(sc.names, c46KindName[kind]+"-"+n.name)
+						}
+						if err := s.step(kind, i); err != nil {
+							return err
+						}
+					}
+					sn := s.snap()
+					all := sn.all()
+					var inv enode.ID
+					for i := range inv {
+						inv[i] = ^c46Self[i]
+					}
+					targets := []enode.ID{c46Self, inv}
+					for b := 0; b < nBuckets; b++ {
+						targets = append(targets, c46IDAt(256-b, 7), c46IDAt(256-b, 0xffff01))
+					}
+					targets = append(targets, c46IDAt(100, 5), c46IDAt(100, 4), c46IDAt(1, 0), c46IDAt(3, 1))
+					counts := []int{1, 2, bucketSize - 1, bucketSize, bucketSize + 1, 64, len(all), len(all) + 1}
+					r.Eval(int64(len(targets) * len(counts) * 2))
+					return s.checkFind(sn, targets, counts)
+				})
+			}
+		}
+
+		// (b4) inbound contacts are refused until the initial refresh has finished
+		{
+			nodes := []*c46Node{c46N("a1", 256, 1, "23.1.1.1", "23.1.2.1", "fiI"), c46N("a2", 250, 1, "23.1.1.2", "", "fi")}
+			sc := c46NewScenario("preinit", nodes)
+			sc.noInit = true
+			r.Case(map[string]any{"grid": "preinit"}, func() error {
+				s := c46NewSys(r, sc)
+				defer s.close()
+				for _, st := range []c46Op{{'i', 0}, {'f', 0}, {'I', 0}, {'i', 1}} {
+					if err := s.step(st.kind, st.node); err != nil {
+						return err
+					}
+				}
+				if s.tab.len() != 1 {
+					return fmt.Errorf("table has %d nodes, only the found node should be there", s.tab.len())
+				}
+				close(s.tab.initDone)
+				for _, st := range []c46Op{{'I', 0}, {'i', 1}} {
+					if err := s.step(st.kind, st.node); err != nil {
+						return err
+					}
+				}
+				if s.tab.len() != 2 {
+					return fmt.Errorf("table has %d nodes after the initial refresh, want 2", s.tab.len())
+				}
+				return nil
+			})
+		}
 	})
 }
